@@ -60,6 +60,7 @@ Section ServeStatements.
 Variables cmd astate : Type.
 Variable run : cmd -> astate -> astate * bool.
 Variable decode : bytes -> payload cmd.
+Variable talks : cmd -> astate -> bool.
 Variable sh : shape.
 
 (* contract on un-modelled code (monitored, not proved): a well-formed command does not raise *)
@@ -68,15 +69,19 @@ Definition no_internal_crash : Prop := forall k a, snd (run k a) = false.
 (* Whatever clients do on their connections (any bytes, any segmentation, closing at any point,
    waiting for the reply or not), as long as nobody sends a well-formed stop the daemon is still
    serving and its status file is still there. *)
+(* either WriteToConn tolerates a client that has gone, or (contract, monitored: true at default verbosity)
+   no command prints while it runs *)
+Definition output_tolerated : Prop := stdout_guarded sh = true \/ forall k a, talks k a = false.
+
 Definition daemon_survives : Prop :=
-  no_internal_crash -> forall a conns,
+  no_internal_crash -> output_tolerated -> forall a conns,
     (forall c, In c conns -> is_stop_request cmd decode c = false) ->
-    let d := fst (serve cmd astate run decode sh (start astate a) conns) in
+    let d := fst (serve cmd astate run decode talks sh (start astate a) conns) in
     ph d = Serving /\ status_file d = true.
 
 Definition daemon_survives_refuted : Prop :=
   exists conns, (forall c, In c conns -> is_stop_request cmd decode c = false) /\
-    forall a, let d := fst (serve cmd astate run decode sh (start astate a) conns) in
+    forall a, let d := fst (serve cmd astate run decode talks sh (start astate a) conns) in
               ph d = Exited /\ status_file d = false.
 
 Definition same_daemon (d d' : daemon astate) : Prop :=
@@ -85,31 +90,67 @@ Definition same_daemon (d d' : daemon astate) : Prop :=
 (* a faulty connection (anything but a well-formed command) leaves the daemon's state untouched *)
 Definition failed_request_preserves_state : Prop :=
   forall d c, is_fault cmd decode c = true ->
-    same_daemon (fst (serve_conn cmd astate run decode sh d c)) d.
+    same_daemon (fst (serve_conn cmd astate run decode talks sh d c)) d.
 
 (* ... and every later connection gets the reply it would have got without the faulty one *)
 Definition later_requests_unaffected : Prop :=
   forall d f later, is_fault cmd decode f = true ->
-    let d1 := fst (serve_conn cmd astate run decode sh d f) in
-    snd (serve cmd astate run decode sh d1 later) = snd (serve cmd astate run decode sh d later) /\
-    same_daemon (fst (serve cmd astate run decode sh d1 later)) (fst (serve cmd astate run decode sh d later)).
+    let d1 := fst (serve_conn cmd astate run decode talks sh d f) in
+    snd (serve cmd astate run decode talks sh d1 later) = snd (serve cmd astate run decode talks sh d later) /\
+    same_daemon (fst (serve cmd astate run decode talks sh d1 later)) (fst (serve cmd astate run decode talks sh d later)).
 
 (* once the daemon has exited no status file naming it remains *)
 Definition status_file_removed_on_exit : Prop :=
-  forall a conns, let d := fst (serve cmd astate run decode sh (start astate a) conns) in
+  forall a conns, let d := fst (serve cmd astate run decode talks sh (start astate a) conns) in
     ph d = Exited -> status_file d = false.
+
+(* ---- stalled clients, idle exit, output to a client that has gone *)
+Definition no_stop_no_idle (evs : list event) : Prop :=
+  forall ev, In ev evs -> event_is_stop cmd decode ev = false /\ event_is_idle ev = false.
+
+(* with a receive timeout on accepted connections a client that connects and then neither sends nor closes
+   (after any number of bytes) cannot block the loop: whatever clients do, incl. stalling, the daemon is
+   never blocked, still serving, status file present *)
+Definition stalled_client_does_not_block_forever : Prop :=
+  no_internal_crash -> output_tolerated -> forall idle a evs, no_stop_no_idle evs ->
+    let e := fst (steps cmd astate run decode talks sh idle (estart astate a) evs) in
+    blocked e = false /\ ph (core e) = Serving /\ status_file (core e) = true.
+
+(* without it: one client that connects and sends nothing wedges the daemon: every later client, whatever it
+   sends, gets no reply, and not even the idle timeout fires *)
+Definition stalled_client_blocks_refuted : Prop :=
+  forall idle a later,
+    let r := steps cmd astate run decode talks sh idle (estart astate a) (Stalled [] :: later) in
+    blocked (fst r) = true /\ ph (core (fst r)) = Serving /\ snd r = repeat NoReply (S (length later)).
+
+(* the daemon that leaves on its idle timeout leaves no status file (any shape) *)
+Definition idle_exit_removes_status_file : Prop :=
+  forall e, blocked e = false -> ph (core e) = Serving ->
+    let e' := fst (step cmd astate run decode talks sh true e IdleTimeout) in
+    ph (core e') = Exited /\ status_file (core e') = false.
+
+Definition status_file_removed_on_exit_events : Prop :=
+  forall idle a evs, let e := fst (steps cmd astate run decode talks sh idle (estart astate a) evs) in
+    ph (core e) = Exited -> status_file (core e) = false.
+
+(* a client that sends a command which prints while it runs, and hangs up: the write to the dead connection
+   raises inside the command, the crash report cannot be sent either, the daemon exits *)
+Definition hangup_during_output_refuted : Prop :=
+  forall b k a, b <> [] -> py_len b < two32 -> decode b = PCmd k -> talks k a = true ->
+    let d := fst (serve cmd astate run decode talks sh (start astate a) [mk_conn [encode_frame b] false]) in
+    ph d = Exited.
 End ServeStatements.
 
 (* the full-strength statement for a given source shape *)
 Definition serve_correct (sh : shape) : Prop :=
-  forall cmd astate run decode,
-    daemon_survives cmd astate run decode sh /\
-    failed_request_preserves_state cmd astate run decode sh /\
-    later_requests_unaffected cmd astate run decode sh /\
-    status_file_removed_on_exit cmd astate run decode sh.
+  forall cmd astate run decode talks,
+    daemon_survives cmd astate run decode talks sh /\
+    failed_request_preserves_state cmd astate run decode talks sh /\
+    later_requests_unaffected cmd astate run decode talks sh /\
+    status_file_removed_on_exit cmd astate run decode talks sh.
 
 Definition serve_refuted (sh : shape) : Prop :=
-  forall cmd astate run decode, daemon_survives_refuted cmd astate run decode sh.
+  forall cmd astate run decode talks, daemon_survives_refuted cmd astate run decode talks sh.
 
 (* what is decided about the loop found in the source: the repaired loop is correct; a loop whose
    receive() is not guarded dies on a client fault (finding F3).  A partially repaired loop is
@@ -118,3 +159,16 @@ Definition serve_verdict (sh : shape) : Prop :=
   if serve_repaired sh then serve_correct sh
   else if negb (recv_catch_os sh) then serve_refuted sh
   else True.
+
+(* stalled clients: decided by whether accepted connections get a receive timeout *)
+Definition stall_verdict (sh : shape) : Prop :=
+  forall cmd astate run decode talks,
+    if conn_timeout sh
+    then serve_repaired sh = true -> stalled_client_does_not_block_forever cmd astate run decode talks sh
+    else stalled_client_blocks_refuted cmd astate run decode talks sh.
+
+(* output to a client that has gone: decided by whether WriteToConn.write tolerates OSError *)
+Definition output_verdict (sh : shape) : Prop :=
+  forall cmd astate run decode talks,
+    if stdout_guarded sh then True   (* covered by daemon_survives through [output_tolerated] *)
+    else hangup_during_output_refuted cmd astate run decode talks sh.
